@@ -272,8 +272,11 @@ def t2_context_tables(ctx: Ctx):
     cfg = CFG(fc)
     stoch = [t for t in cfg.nodes_of('test') if norm(t.ast) == 'ctx.is_stochastic()']
     ov = [t for t in cfg.nodes_of('test') if norm(t.ast) in ('ctx.overflow is not OV.OVERFLOW', 'ctx.overflow is not OverflowMode.OVERFLOW')]
-    ieee_rets = [r for r in cfg.returns() if 'precision=' in norm(r.ast) and any(s in norm(r.ast) for s in ("'binary", "'float'"))]
-    if len(ieee_rets) < 6:
+    ieee_arm = [c for m in [n for n in ast.walk(fc) if isinstance(n, ast.Match) and norm(n.subject) == 'ctx'] for c in m.cases
+                if isinstance(c.pattern, ast.MatchClass) and dotted(c.pattern.cls) == 'IEEEContext']
+    inside = {id(x) for c in ieee_arm for x in ast.walk(c)}
+    ieee_rets = [r for r in cfg.returns() if id(r.ast) in inside]
+    if not ieee_rets:
         raise ShapeError('from_context: the IEEE returns were not found')
     bad = None
     for r in cfg.returns():
